@@ -71,11 +71,22 @@ def depth_of(prog, d=0):
 def check_program(ctx, case) -> None:
     prog = case["program"]
     w = World()
-    S = fl.settings
+    # the program runs on the library-wide settings object, or on a second fl.Settings instance (then the library-wide
+    # object must stay untouched and the helpers keep following it)
+    S = fl.settings if case.get("target", "global") == "global" else fl.Settings()
     model = {k: vars(S)[ATTR.get(k, k)] for k in KEYS}
+    pristine = {k: vars(fl.settings)[ATTR.get(k, k)] for k in KEYS}
     crossed = [False]
+    if S is not fl.settings:
+        ctx.cls("second_settings_instance")
 
     def compare(where):
+        if S is not fl.settings:
+            for k in KEYS:
+                got, want = vars(fl.settings)[ATTR.get(k, k)], pristine[k]
+                if not ((got is want) if k in ("float_type", "logger", "factory_manager") else got == want):
+                    ctx.fail("library-wide-setting-touched:" + k, case, {"where": where, "got": repr(got)[:80],
+                                                                         "expected": repr(want)[:80]})
         cur = vars(S)
         for k in KEYS:
             got, want = cur[ATTR.get(k, k)], model[k]
@@ -87,6 +98,9 @@ def check_program(ctx, case) -> None:
 
     def observe(where):
         compare(where)
+        if S is not fl.settings:
+            ctx.ev()
+            return  # the helpers read the library-wide object, which compare() has just found untouched
         d = model["decimals"]
         ctx.check(fl.Op.str(1 / 3) == f"{1 / 3:.{d}f}", "helper:Op.str", case,
                   {"where": where, "got": fl.Op.str(1 / 3), "decimals": d})
@@ -120,9 +134,14 @@ def check_program(ctx, case) -> None:
                 compare(here + ":after-try")
             elif s[0] == "with":
                 named = {k: w.value(k, v) for k, v in s[1].items()}
-                snapshot = {k: model[k] for k in named}
+                cm = S.context(**named)  # the context object may be created some time before it is entered
+                for a in (s[3] if len(s) > 3 else []):
+                    val = w.value(a[1], a[2])
+                    setattr(S, a[1], val)
+                    model[a[1]] = val
+                snapshot = {k: model[k] for k in named}  # "previous value" = the value when the context is entered
                 try:
-                    with S.context(**named):
+                    with cm:
                         model.update(named)
                         compare(here + ":entered")
                         try:
@@ -170,10 +189,15 @@ def programs(draw, depth=4):
             elif k == "with" and d > 0:
                 keys = draw(st.lists(st.sampled_from(KEYS), min_size=1, max_size=4, unique=True))
                 named = {key: draw(st.sampled_from(VALUES[key])) for key in keys}
-                out.append(["with", named, body(d - 1, 3)])
+                between = []
+                if draw(st.integers(0, 3)) == 0:  # assignments between creating the context object and entering it
+                    for _ in range(draw(st.integers(1, 2))):
+                        kk = draw(st.sampled_from(keys + KEYS[:2]))
+                        between.append(["assign", kk, draw(st.sampled_from(VALUES[kk]))])
+                out.append(["with", named, body(d - 1, 3)] + ([between] if between else []))
         return out
 
-    return {"program": body(depth, 4) + [["observe"]]}
+    return {"program": body(depth, 4) + [["observe"]], "target": draw(st.sampled_from(["global", "global", "instance"]))}
 
 
 def exhaustive(ctx):
